@@ -1582,6 +1582,10 @@ class Engine:
                 f2 = c2.frames[-1]
                 if callable(val):
                     val = val(c2)
+                if isinstance(val, Fork):          # an alternative that forks again (e.g. "the table may grow at this insert")
+                    r2 = self.finish_call(c2, f2, val, dest, ret_bb)
+                    out.extend(r2 if r2 is not None else [("ctx", c2)])
+                    continue
                 if isinstance(val, Diverge):
                     out.append(("leaf", Leaf(c2, val.status, detail=val.detail)))
                     continue
